@@ -169,6 +169,42 @@ def split_first_form(t):
     return None
 
 
+def first_forms(t, xs):
+    """other spellings of "first entry / the remaining entries" over the entries collection `xs`:
+    `xs.first()` (a model turns it into `!xs.is_empty()` / `xs[0]`), `xs.iter().skip(1)`, and "no adjacent pair differs" over
+    `xs.windows(2)` - which, equality being transitive, is "every remaining entry equals the first"."""
+    if t == ("empty", xs):
+        return ("not", ("is", R.NEXT, "Some"))
+    if t[0] == "index" and t[1] == xs and t[2] == lit_int(0):
+        return R.ELEM
+    if t[0] == "call" and t[1] == "std::ops::Index::index" and t[2] == (xs, lit_int(0)):
+        return R.ELEM
+    if t[0] == "call" and t[1] == "std::iter::Iterator::skip" and len(t[2]) == 2 and t[2][1] == lit_int(1) \
+            and t[2][0] in (("call", "core::slice::iter", (xs,)), ("call", "std::iter::IntoIterator::into_iter", (xs,))):
+        return ("rest",)
+    if t[0] == "quant" and t[1] == "all" and t[2] == ("call", "core::slice::windows", (xs, lit_int(2))) and t[3][0] == "eq":
+        b0 = ("bound", 0)
+        l_, r_ = t[3][1], t[3][2]
+
+        def side(u, i):
+            # field path over `pair[i]`
+            path = []
+            while u[0] == "field":
+                path.append(u[2])
+                u = u[1]
+            if u in (("index", b0, lit_int(i)), ("call", "std::ops::Index::index", (b0, lit_int(i)))):
+                return tuple(reversed(path))
+            return None
+        for i_, j_ in ((0, 1), (1, 0)):
+            pl_, pr_ = side(l_, i_), side(r_, j_)
+            if pl_ is not None and pl_ == pr_:
+                a_, c_ = b0, R.ELEM
+                for f_ in pl_:
+                    a_, c_ = mk_field(a_, f_), mk_field(c_, f_)
+                return ("quant", "all", ("rest",), ("eq", a_, c_))
+    return None
+
+
 def check_remap_method(fx, rep, rule):
     """C04.3 / C02.6: all-entries-agree rule in both implementations"""
     # mapper
@@ -192,7 +228,7 @@ def check_remap_method(fx, rep, rule):
                 r = split_first_form(t)
                 if r is not None:
                     return r
-                return None
+                return first_forms(t, mk_field(mk_payload(gm, "Some", "0"), "all_mappings"))
 
             def ref(o):
                 if not o(("is", g, "Some")) or not o(("is", gm, "Some")) or not o(("is", R.NEXT, "Some")):
@@ -235,7 +271,7 @@ def check_remap_method(fx, rep, rule):
                 r = split_first_form(t)
                 if r is not None:
                     return r
-                return None
+                return first_forms(t, mk_payload(("range", mk_payload(ms, "Some", "0")), "Some", "0"))
             rng = ("range", mk_payload(ms, "Some", "0"))
             first = R.ELEM
             sb = mk_field(slf, "string_bytes")
